@@ -91,7 +91,7 @@ class Table:
         return self.cols[col]
 
     def set(self, r, col, v):
-        self.ws.cell(row=r, column=self.ensure_col(col), value=v)
+        self.ws.cell(row=r, column=self.ensure_col(col)).value = v  # (ws.cell(value=None) would leave the old value)
 
     def append(self, **vals):
         r = self.ws.max_row + 1
@@ -1107,12 +1107,17 @@ reg("fw.blank_row_in_table", FW, "accept", "framework.py:68-74 on the compartmen
 def _extra_col_apply(v, site):
     t = v.tab(site[0])
     c = t.last_col() + 1
-    t.ws.cell(row=t.r0, column=c).value = ["My Notes", "#ignore notes"][site[1]]
-    for r in t.rows:
-        t.ws.cell(row=r, column=c).value = "note %d" % r
+    if site[1] == 0:
+        t.ws.cell(row=t.r0, column=c).value = "My Notes"
+        for r in t.rows:
+            t.ws.cell(row=r, column=c).value = "note %d" % r
+    else:  # '#ignore' in every row (heading included): nothing to its right is parsed
+        for r in [t.r0] + t.rows:
+            t.ws.cell(row=r, column=c).value = "#ignore"
+            t.ws.cell(row=r, column=c + 1).value = "free text %d" % r
 
 
-reg("fw.extra_column", FW, "accept", "excel.py:299-302 cells after a #ignore cell are skipped; unknown columns are kept untouched by _sanitize_dataframe (framework.py:1446-1525 only checks required columns)", _ignore_row_sites, _extra_col_apply)
+reg("fw.extra_column", FW, "accept", "docs/general/skipping-excel-cells.ipynb (Frameworks: within each row nothing after a '#ignore' is parsed, excel.py:299-302); columns with an unknown heading are kept untouched (framework.py:1476-1510 only required columns / valid_content are checked)", _ignore_row_sites, _extra_col_apply)
 
 
 def _extra_sheet_apply(v, site):
@@ -1162,3 +1167,567 @@ def _corner_apply(v, site):
 reg("fw.transition_corner_label", FW, "accept", "framework.py:900-904 an empty corner cell or 'Transition matrix' assigns the matrix to the first population type", _corner_sites, _corner_apply)
 
 reg("fw.identity", FW, "accept", "unchanged valid file (library files shipped with the package / generated valid frameworks)", lambda v: [0], lambda v, site: None)
+
+
+# ======================================================================================== DATABOOK entries
+DB = "databook"
+SPECIAL_DB_SHEETS = {"Population Definitions", "Transfers", "Interactions", "Metadata"}
+KNOWN_TDVE_HEADINGS = {"units", "uncertainty", "constant", "assumption"}
+
+
+def _isnum(v):
+    return isinstance(v, (int, float)) and not isinstance(v, bool)
+
+
+class TdveTable:
+    """one time-dependent-values table (databook quantity page or progbook spending sheet)"""
+
+    def __init__(self, ws, r0, r1):
+        self.ws, self.r0, self.r1 = ws, r0, r1
+        self.name = _s(ws.cell(row=r0, column=1).value)
+        self.cols = {}
+        self.years = {}
+        for c in ws[r0][1:]:
+            v = c.value
+            if isinstance(v, str):
+                if v.strip().startswith("#ignore"):
+                    break
+                if v.strip():
+                    self.cols[v.strip().lower()] = c.column
+            elif _isnum(v):
+                self.years[v] = c.column
+        self.rows = [r for r in range(r0 + 1, r1 + 1) if not _blank(ws.cell(row=r, column=1).value) and not str(ws.cell(row=r, column=1).value).startswith("#ignore")]
+
+    def label(self, r):
+        return _s(self.ws.cell(row=r, column=1).value)
+
+    def const_col(self):
+        return self.cols.get("constant") or self.cols.get("assumption")
+
+    def value_cols(self):
+        return ([self.const_col()] if self.const_col() else []) + list(self.years.values())
+
+    def has_data(self, r):
+        return any(_isnum(self.ws.cell(row=r, column=c).value) for c in self.value_cols())
+
+    def blank_values(self, r):
+        for c in self.value_cols():
+            self.ws.cell(row=r, column=c).value = None
+
+    def last_col(self):
+        return max([1] + list(self.cols.values()) + list(self.years.values()))
+
+
+def _tdve_tables(ws):
+    return [TdveTable(ws, r0, r1) for r0, r1 in xw.table_blocks(ws)]
+
+
+class DbView:
+    """what a databook workbook says (values mode), read with openpyxl only.  `F` (the loaded framework) is only used to
+    look up which framework quantity a table belongs to (display name -> code name, default value, format)."""
+
+    def __init__(self, wb, F=None):
+        self.wb, self.F = wb, F
+        self.ws = {ws.title: ws for ws in wb.worksheets}
+        self.pops = []
+        if "Population Definitions" in self.ws:
+            ws = self.ws["Population Definitions"]
+            for r in range(2, ws.max_row + 1):
+                if not _blank(ws.cell(row=r, column=1).value):
+                    self.pops.append({"code": _s(ws.cell(row=r, column=1).value), "label": _s(ws.cell(row=r, column=2).value), "row": r, "type": _s(ws.cell(row=r, column=3).value)})
+        self.tables = []
+        for title, ws in self.ws.items():
+            if title in SPECIAL_DB_SHEETS or title.startswith("#ignore"):
+                continue
+            self.tables += _tdve_tables(ws)
+        self.tdc = {"Transfers": [], "Interactions": []}
+        for title in self.tdc:
+            if title in self.ws:
+                ws = self.ws[title]
+                blocks = xw.table_blocks(ws)
+                for i in range(0, len(blocks) - 2, 3):
+                    d, m, t = blocks[i : i + 3]
+                    hdr = {}
+                    for c in ws[t[0]]:
+                        if isinstance(c.value, str) and c.value.strip():
+                            hdr[c.value.strip().lower()] = c.column
+                        elif _isnum(c.value):
+                            hdr.setdefault("years", []).append(c.column)
+                    rows = [r for r in range(t[0] + 1, t[1] + 1) if not _blank(ws.cell(row=r, column=1).value) and ws.cell(row=r, column=1).value != "..."]
+                    self.tdc[title].append({"ws": ws, "def": d, "matrix": m, "ts": t, "code": _s(ws.cell(row=d[0] + 1, column=1).value), "hdr": hdr, "rows": rows})
+
+    def spec_of(self, table):
+        """framework row of the quantity a TDVE table belongs to (None if unknown)"""
+        try:
+            return self.F.get_variable(table.name)[0]
+        except Exception:
+            return None
+
+    def required_tables(self):
+        import pandas as pd
+
+        out = []
+        for t in self.tables:
+            s = self.spec_of(t)
+            if s is not None and not pd.isna(s["databook page"]):
+                out.append(t)
+        return out
+
+    def framework_codes(self):
+        F = self.F
+        return list(F.comps.index) + list(F.characs.index) + list(F.pars.index)
+
+    def replace_everywhere(self, old, new):
+        n = 0
+        for ws in self.wb.worksheets:
+            for row in ws.iter_rows():
+                for c in row:
+                    if isinstance(c.value, str) and c.value.strip() == old:
+                        c.value = new
+                        n += 1
+        return n
+
+
+def _tv_sites(v, tables=None, pred=None, nt=6, nr=3):
+    out = []
+    tables = v.required_tables() if tables is None else tables
+    for i, t in enumerate(tables[:nt]):
+        for k, r in enumerate(t.rows[:nr]):
+            if pred is None or pred(t, r):
+                out.append([i, k])
+    return out
+
+
+def _tr(v, site):
+    t = v.required_tables()[site[0]]
+    return t, t.rows[site[1]]
+
+
+def _db_blank_values(v, site):
+    t, r = _tr(v, site)
+    t.blank_values(r)
+
+
+reg("db.blank_required_values", DB, "reject", "data.py:512-513 every population row of a framework quantity needs data ('Data values missing')", lambda v: _tv_sites(v, pred=lambda t, r: t.has_data(r)), _db_blank_values, "semantic")
+
+
+def _has_all_row(t):
+    return any(t.label(r) in ("all", "All") for r in t.rows)
+
+
+def _db_delete_row(v, site):
+    t, r = _tr(v, site)
+    t.ws.delete_rows(r)
+
+
+reg(
+    "db.delete_population_row",
+    DB,
+    "reject",
+    "data.py:502-510 a table must supply every population of its type unless it has an 'all' row (InvalidDatabook)",
+    lambda v: _tv_sites(v, pred=lambda t, r: not _has_all_row(t) and t.label(r) in [p["code"] for p in v.pops] + [p["label"] for p in v.pops]),
+    _db_delete_row,
+    "semantic",
+)
+
+
+def _db_rename_row(v, site):
+    t, r = _tr(v, site)
+    t.ws.cell(row=r, column=1).value = "zz_unknown_pop"
+
+
+reg(
+    "db.unknown_population_in_table",
+    DB,
+    "reject",
+    "data.py:502-510 renaming a population row leaves a required population without data (InvalidDatabook)",
+    lambda v: _tv_sites(v, pred=lambda t, r: not _has_all_row(t) and t.label(r) in [p["code"] for p in v.pops] + [p["label"] for p in v.pops]),
+    _db_rename_row,
+    "semantic",
+)
+
+
+def _copy_row(ws, src, dst, ncol):
+    for c in range(1, ncol + 1):
+        ws.cell(row=dst, column=c).value = ws.cell(row=src, column=c).value
+
+
+def _db_extra_row(v, site):
+    t, r = _tr(v, site)
+    t.ws.insert_rows(t.r1 + 1)
+    _copy_row(t.ws, r, t.r1 + 1, t.last_col())
+    t.ws.cell(row=t.r1 + 1, column=1).value = "zz_extra_pop"
+
+
+reg(
+    "db.extra_unknown_population_row",
+    DB,
+    "accept",
+    "parameters.py:408-416 'Keep only valid populations (discard any extra ones here)': a row for a population that is not defined is ignored",
+    lambda v: _tv_sites(v, pred=lambda t, r: t.has_data(r), nt=4, nr=1),
+    _db_extra_row,
+    "semantic",
+)
+
+
+def _no_default(v, t):
+    import numpy as np
+
+    s = v.spec_of(t)
+    try:
+        return not np.isfinite(s["default value"])
+    except Exception:
+        return True
+
+
+def _db_delete_table(v, site):
+    t = v.required_tables()[site]
+    for r in range(t.r0, t.r1 + 1):
+        for c in range(1, t.ws.max_column + 1):
+            t.ws.cell(row=r, column=c).value = None
+
+
+reg(
+    "db.missing_table",
+    DB,
+    "reject",
+    "data.py:481-484 'The databook did not contain a required TDVE table' (InvalidDatabook) for a framework quantity without default value",
+    lambda v: [i for i, t in enumerate(v.required_tables()[:10]) if _no_default(v, t)],
+    _db_delete_table,
+    "semantic",
+)
+reg(
+    "db.missing_table_with_default",
+    DB,
+    "accept",
+    "data.py:485-495 a missing table of a quantity with a framework default value is filled from the default (warning only)",
+    lambda v: [i for i, t in enumerate(v.required_tables()[:40]) if not _no_default(v, t)][:6],
+    _db_delete_table,
+    "semantic",
+)
+
+OTHER_UNITS = ["Fraction", "Number", "Duration (years)", "Rate (per year)", "Probability (per year)", "zz units"]
+
+
+def _units_sites(v):
+    out = []
+    for i, t in enumerate(v.required_tables()[:8]):
+        if "units" not in t.cols:
+            continue
+        for k, r in enumerate(t.rows[:2]):
+            cur = t.ws.cell(row=r, column=t.cols["units"]).value
+            cur = cur.strip().lower() if isinstance(cur, str) else ""
+            for j, u in enumerate(OTHER_UNITS):
+                # a different quantity type (the first word differs: 'Rate' for 'Rate (per year)' is a legal legacy spelling, data.py:406-413)
+                if u.split()[0].lower() != (cur.split() or [""])[0]:
+                    out.append([i, k, j])
+    return out
+
+
+def _units_apply(v, site):
+    t = v.required_tables()[site[0]]
+    t.ws.cell(row=t.rows[site[1]], column=t.cols["units"]).value = OTHER_UNITS[site[2]]
+
+
+reg(
+    "db.unit_mismatch",
+    DB,
+    "reject",
+    "data.py:515-519 'Unit ... does not match the declared units from the Framework'; parameters.py:401-405 'The units for quantity ... in the databook do not match the units in the framework'",
+    _units_sites,
+    _units_apply,
+    "semantic",
+)
+
+
+def _legacy_units_sites(v):
+    out = []
+    for i, t in enumerate(v.required_tables()[:8]):
+        if "units" in t.cols:
+            for k, r in enumerate(t.rows[:2]):
+                cur = t.ws.cell(row=r, column=t.cols["units"]).value
+                if isinstance(cur, str) and cur.strip():
+                    out += [[i, k, j] for j in range(3)]
+    return out
+
+
+def _legacy_units_apply(v, site):
+    t = v.required_tables()[site[0]]
+    cell = t.ws.cell(row=t.rows[site[1]], column=t.cols["units"])
+    cur = cell.value.strip()
+    cell.value = [cur.split()[0], None, cur.upper()][site[2]]
+
+
+reg(
+    "db.legacy_or_blank_units",
+    DB,
+    "accept",
+    "data.py:406-413 units that are empty or only name the quantity type ('Rate' for 'Rate (per year)') are migrated to the framework units; 515 comparison is case-insensitive",
+    _legacy_units_sites,
+    _legacy_units_apply,
+    "semantic",
+)
+
+
+def _tdc_names(v):
+    return [(title, i, t["code"]) for title in ("Transfers", "Interactions") for i, t in enumerate(v.tdc[title])]
+
+
+def _dup_tdc_sites(v):
+    names = _tdc_names(v)
+    return [[i, j] for i in range(len(names)) for j in range(len(names)) if i != j and names[i][0] == "Transfers" and names[i][2] != names[j][2]]
+
+
+def _dup_tdc_apply(v, site):
+    names = _tdc_names(v)
+    title, i, _ = names[site[0]]
+    t = v.tdc[title][i]
+    t["ws"].cell(row=t["def"][0] + 1, column=1).value = names[site[1]][2]
+
+
+reg(
+    "db.duplicate_transfer_name",
+    DB,
+    "reject",
+    "data.py:925-926 'Another transfer with name ... already exists'; 426-432 a transfer cannot share its name with an interaction (InvalidDatabook)",
+    _dup_tdc_sites,
+    _dup_tdc_apply,
+)
+
+
+def _popcode_sites(v):
+    codes = v.framework_codes()
+    return [[i, j] for i in _idx(v.pops, 3) for j in _idx(codes, 6) if len(codes[j]) > 1]
+
+
+def _popcode_apply(v, site):
+    v.replace_everywhere(v.pops[site[0]]["code"], v.framework_codes()[site[1]])
+
+
+reg(
+    "db.population_named_like_framework_quantity",
+    DB,
+    "reject",
+    "data.py:478-479 'Code name ... has been used for both a population and a framework quantity' (InvalidDatabook)",
+    _popcode_sites,
+    _popcode_apply,
+    "semantic",
+)
+
+
+def _tdc_pop_sites(title):
+    def f(v):
+        out = []
+        for i, t in enumerate(v.tdc[title]):
+            used = []
+            for r in t["rows"]:
+                for c in (1, 3):
+                    p = _s(t["ws"].cell(row=r, column=c).value)
+                    if p not in used:
+                        used.append(p)
+            out += [[i, k] for k in range(min(len(used), 3))]
+        return out
+
+    return f
+
+
+def _tdc_pop_apply(title):
+    def f(v, site):
+        t = v.tdc[title][site[0]]
+        ws = t["ws"]
+        used = []
+        for r in t["rows"]:
+            for c in (1, 3):
+                p = _s(ws.cell(row=r, column=c).value)
+                if p not in used:
+                    used.append(p)
+        old = used[site[1]]
+        for r in range(t["matrix"][0], t["ts"][1] + 1):
+            for c in range(1, ws.max_column + 1):
+                if _s(ws.cell(row=r, column=c).value) == old:
+                    ws.cell(row=r, column=c).value = "zz_unknown_pop"
+
+    return f
+
+
+reg("db.unknown_population_in_transfer", DB, "reject", "data.py:545-549 a transfer can only connect populations that are defined ('Population ... not recognized')", _tdc_pop_sites("Transfers"), _tdc_pop_apply("Transfers"), "semantic")
+reg("db.unknown_population_in_interaction", DB, "reject", "data.py:531-537 an interaction can only connect populations that are defined ('Population ... not recognized')", _tdc_pop_sites("Interactions"), _tdc_pop_apply("Interactions"), "semantic")
+
+
+def _tdc_row_sites(title, col=None):
+    def f(v):
+        return [[i, k] for i, t in enumerate(v.tdc[title]) for k in range(min(len(t["rows"]), 3)) if col is None or col in t["hdr"]]
+
+    return f
+
+
+def _tdc_blank_values(title):
+    def f(v, site):
+        t = v.tdc[title][site[0]]
+        r = t["rows"][site[1]]
+        for c in [t["hdr"].get("constant"), t["hdr"].get("assumption")] + t["hdr"].get("years", []):
+            if c:
+                t["ws"].cell(row=r, column=c).value = None
+
+    return f
+
+
+reg("db.transfer_without_data", DB, "reject", "data.py:551 'Data values missing for transfer'", _tdc_row_sites("Transfers"), _tdc_blank_values("Transfers"), "semantic")
+reg("db.interaction_without_data", DB, "reject", "data.py:539 'Data values missing for interaction'", _tdc_row_sites("Interactions"), _tdc_blank_values("Interactions"), "semantic")
+
+
+def _tdc_blank_units(v, site):
+    t = v.tdc["Transfers"][site[0]]
+    t["ws"].cell(row=t["rows"][site[1]], column=t["hdr"]["units"]).value = None
+
+
+reg("db.transfer_without_units", DB, "reject", "data.py:552 'Units are missing for transfer'", _tdc_row_sites("Transfers", "units"), _tdc_blank_units, "semantic")
+
+
+def _sheet_sites(pred):
+    return lambda v: [t for t in v.ws if pred(v, t)]
+
+
+def _db_del_sheet(v, site):
+    v.wb.remove(v.ws[site])
+
+
+reg(
+    "db.delete_quantity_sheet",
+    DB,
+    "reject",
+    "data.py:481-484 all tables of the sheet are then missing (InvalidDatabook)",
+    _sheet_sites(lambda v, t: t not in SPECIAL_DB_SHEETS and any(x.ws.title == t and _no_default(v, x) for x in v.required_tables())),
+    _db_del_sheet,
+    "semantic",
+)
+reg(
+    "db.delete_interactions_sheet",
+    DB,
+    "reject",
+    "data.py:531-543 'Required interaction ... not found in databook' (InvalidDatabook)",
+    lambda v: ["Interactions"] if v.tdc["Interactions"] and len(v.F.interactions) else [],
+    _db_del_sheet,
+    "semantic",
+)
+reg("db.delete_transfers_sheet", DB, "accept", "data.py:353-356 the Transfers sheet is optional", lambda v: ["Transfers"] if "Transfers" in v.ws else [], _db_del_sheet, "semantic")
+
+
+def _val_cells(v):
+    out = []
+    for i, t in enumerate(v.required_tables()[:6]):
+        for k, r in enumerate(t.rows[:2]):
+            for j, c in enumerate(t.value_cols()[:3]):
+                out.append([i, k, j])
+    return out
+
+
+def _text_apply(v, site):
+    t = v.required_tables()[site[0]]
+    t.ws.cell(row=t.rows[site[1]], column=t.value_cols()[site[2]]).value = "abc"
+
+
+reg("db.text_in_value_cell", DB, "reject", "excel.py:1262-1273 cell_get_number 'Cell ... needs to contain a number', wrapped as InvalidDatabook by data.py:388-392", _val_cells, _text_apply)
+
+
+def _dup_table_apply(v, site):
+    t = v.required_tables()[site]
+    ws = t.ws
+    r = ws.max_row + 2
+    for i, src in enumerate(range(t.r0, t.r1 + 1)):
+        _copy_row(ws, src, r + i, t.last_col())
+
+
+reg("db.duplicate_table", DB, "reject", "data.py:419-420 'A TDVE table ... appears more than once in the databook' (InvalidDatabook)", lambda v: _idx(v.required_tables(), 6), _dup_table_apply)
+
+
+def _rename_table_apply(v, site):
+    t = v.required_tables()[site[0]]
+    t.ws.cell(row=t.r0, column=1).value = ["ZZ unknown quantity", None, 42][site[1]]
+
+
+reg(
+    "db.unknown_table_name",
+    DB,
+    "reject",
+    "data.py:394-400 'The variable was not found in the Framework'; excel.py:945-949 the name of a table must be a non-empty string (InvalidDatabook)",
+    lambda v: [[i, j] for i in _idx(v.required_tables(), 4) for j in range(3)],
+    _rename_table_apply,
+)
+
+
+def _dup_year_sites(v):
+    return [i for i, t in enumerate(v.required_tables()[:8]) if len(t.years) >= 2]
+
+
+def _dup_year_apply(v, site):
+    t = v.required_tables()[site]
+    ys = sorted(t.years)
+    t.ws.cell(row=t.r0, column=t.years[ys[1]]).value = ys[0]
+
+
+reg("db.duplicate_year_column", DB, "reject", "excel.py:1212-1214 'Duplicate year in cell ...' (wrapped as InvalidDatabook)", _dup_year_sites, _dup_year_apply)
+
+
+def _dup_heading_apply(v, site):
+    t = v.required_tables()[site]
+    t.ws.cell(row=t.r0, column=t.last_col() + 1).value = "Units"
+
+
+reg("db.duplicate_heading", DB, "reject", "excel.py:1199-1201 'Duplicate heading in cell ...' (wrapped as InvalidDatabook)", lambda v: [i for i, t in enumerate(v.required_tables()[:6]) if "units" in t.cols], _dup_heading_apply)
+
+
+def _popname_apply(v, site):
+    ws = v.ws["Population Definitions"]
+    ws.cell(row=v.pops[site[0]]["row"], column=[1, 1, 1, 2, 1][site[1]]).value = ["all", "t", "a", "B", None][site[1]]
+
+
+reg(
+    "db.invalid_population_name",
+    DB,
+    "reject",
+    "data.py:867-874 population names must be strings of at least two characters and not a reserved keyword (wrapped as InvalidDatabook, 364-368)",
+    lambda v: [[i, j] for i in _idx(v.pops, 2) for j in range(5)],
+    _popname_apply,
+)
+
+
+def _poptype_apply(v, site):
+    ws = v.ws["Population Definitions"]
+    if _blank(ws.cell(row=1, column=3).value):
+        ws.cell(row=1, column=3).value = "Population type"
+    ws.cell(row=v.pops[site]["row"], column=3).value = "zz_type"
+
+
+reg("db.unknown_population_type", DB, "reject", "data.py:471-474 'population type ... not found in framework'", lambda v: _idx(v.pops, 3), _poptype_apply, "semantic")
+
+
+def _db_ignore_row(v, site):
+    t = v.required_tables()[site[0]]
+    r = t.r0 + 1 if site[1] == 0 else t.r1 + 1
+    t.ws.insert_rows(r)
+    t.ws.cell(row=r, column=1).value = "#ignore a comment row"
+    t.ws.cell(row=r, column=3).value = "not a number"
+
+
+reg("db.ignore_row", DB, "accept", "docs/general/skipping-excel-cells.ipynb: a row starting with '#ignore' is skipped and does not split the table (excel.py:234-236)", lambda v: [[i, j] for i in _idx(v.required_tables(), 4) for j in range(2)], _db_ignore_row, "semantic")
+
+
+def _db_ignore_col(v, site):
+    t = v.required_tables()[site]
+    c = t.ws.max_column + 1
+    for r in range(t.r0, t.r1 + 1):
+        t.ws.cell(row=r, column=c).value = "#ignore"
+        t.ws.cell(row=r, column=c + 1).value = "free text %d" % r
+
+
+reg("db.ignore_column", DB, "accept", "docs/general/skipping-excel-cells.ipynb: 'add a column of #ignore cells off to the right of the data entry tables, and then any arbitrary content'", lambda v: _idx(v.required_tables(), 4), _db_ignore_col, "semantic")
+
+
+def _db_ignore_sheet(v, site):
+    ws = v.wb.create_sheet("#ignore notes")
+    _append_table(ws, [["whatever", 1, "x"], [None, "#ignore"], ["ZZ unknown quantity", "Units", "Constant"]])
+
+
+reg("db.ignored_sheet", DB, "accept", "data.py:360-361 sheets whose title starts with '#ignore' are skipped", lambda v: [0], _db_ignore_sheet, "semantic")
+reg("db.identity", DB, "accept", "unchanged valid databook", lambda v: [0], lambda v, site: None, "semantic")
